@@ -87,4 +87,33 @@ def safe : List Nat → Bool
     else if c == 38 then entityTails.any (fun t => t.isPrefixOf cs) && safe cs
     else safe cs
 
+/-! ### strict loaders: the hypothesis of `strict_render_safe` (and of the harness's `strict` oracle) -/
+/-- `{% apply f %}` functions of the pool that map safe bytes to safe bytes (`up` does not: `&amp;` → `&AMP;`) -/
+def safeFn (m : Str) : Bool :=
+  m == (/-"xhtml_escape"-/ [120, 104, 116, 109, 108, 95, 101, 115, 99, 97, 112, 101] : List Nat) ||
+  m == (/-"escape"-/ [101, 115, 99, 97, 112, 101] : List Nat) ||
+  m == (/-"ident"-/ [105, 100, 101, 110, 116] : List Nat) || m == (/-"wrap"-/ [119, 114, 97, 112] : List Nat)
+
+/-- the file's autoescape setting escapes -/
+def escAe : Option Str → Bool
+  | some fn => isEscaping fn
+  | none => false
+
+/-- a body of a file with autoescape `ae` that cannot emit unescaped data by itself: literal text without markup, every
+expression tag non-raw (no `{% raw %}`, no `{% module %}`) and `ae` escaping, `{% apply %}` only with `safeFn`s.  A file
+whose setting is `None` qualifies as long as it has no expression tag of its own. -/
+def strictNodes (ae : Option Str) : List Node → Bool
+  | [] => true
+  | .text v _ ws :: ns => safe (utf8 (textValue v ws)) && strictNodes ae ns
+  | .expr _ _ raw :: ns => (!raw && escAe ae) && strictNodes ae ns
+  | .control _ _ body :: ns => strictNodes ae body && strictNodes ae ns
+  | .apply m _ body :: ns => (safeFn m && strictNodes ae body) && strictNodes ae ns
+  | .block _ _ body :: ns => strictNodes ae body && strictNodes ae ns
+  | .stmt _ _ :: ns => strictNodes ae ns
+  | .inter _ _ :: ns => strictNodes ae ns
+  | .extends _ :: ns => strictNodes ae ns
+  | .incl _ _ :: ns => strictNodes ae ns
+
+def strictFile (t : FileInfo) : Bool := strictNodes t.autoescape t.body
+
 end TornadoModel.C20
